@@ -203,6 +203,7 @@ func (i *interpreter) resetPath() {
 	i.jsonStreams = nil
 	i.jsonCodecs = nil
 	i.pendingTimers = nil
+	i.pendingTickers = nil
 	i.protoMsgs = map[string]iface{}
 	i.depth = 0
 	i.chanSeq = 0
